@@ -123,6 +123,44 @@ theorem intersect_self (a : List Record) : intersect a a = a := by
   rw [List.any_eq_true]
   exact ⟨r, hr, (recEq_iff r r).2 ⟨rfl, rfl, rfl, rfl, rfl, rfl, rfl, rfl, rfl⟩⟩
 
+/-- equality looks at neither `internal_location` nor the derived `md5short` … -/
+theorem recEq_ignores_location (a b : Record) (loc short : Bytes) :
+    recEq { a with internalLocation := loc, md5short := short } b = recEq a b ∧
+    recEq a { b with internalLocation := loc, md5short := short } = recEq a b := ⟨rfl, rfl⟩
+
+/-- … and at every other column: two records that differ in any one of md5, ksize, moltype, scaled,
+    num, n_hashes, with_abundance, name, filename are different records (so a record and its
+    "flattened" twin, which differ in `with_abundance` only, are not common to two manifests) -/
+theorem recEq_false_of_ne (a b : Record)
+    (h : a.md5 ≠ b.md5 ∨ a.ksize ≠ b.ksize ∨ a.moltype ≠ b.moltype ∨ a.scaled ≠ b.scaled ∨ a.num ≠ b.num ∨
+      a.nHashes ≠ b.nHashes ∨ a.withAbundance ≠ b.withAbundance ∨ a.name ≠ b.name ∨ a.filename ≠ b.filename) :
+    recEq a b = false := by
+  cases hr : recEq a b with
+  | false => rfl
+  | true =>
+    obtain ⟨h1, h2, h3, h4, h5, h6, h7, h8, h9⟩ := (recEq_iff a b).1 hr
+    rcases h with h | h | h | h | h | h | h | h | h <;> contradiction
+example : (default : Record).withAbundance ≠ ({ (default : Record) with withAbundance := true }).withAbundance := by
+  decide
+
+/-- `Collection::check_superset` accepts iff the rows agree pairwise (equal modulo location) on the
+    common prefix of the two manifests, and then reports the length of the first -/
+theorem superset_iff (a b : List Record) (n : Nat) :
+    checkSuperset a b = some n ↔ (∀ p ∈ a.zip b, recEq p.1 p.2 = true) ∧ n = a.length := by
+  unfold checkSuperset
+  by_cases h : (a.zip b).all (fun p => recEq p.1 p.2) = true
+  · rw [if_pos h]
+    rw [List.all_eq_true] at h
+    constructor
+    · intro e; cases e; exact ⟨h, rfl⟩
+    · rintro ⟨_, rfl⟩; rfl
+  · rw [if_neg h]
+    rw [List.all_eq_true] at h
+    constructor
+    · intro e; cases e
+    · rintro ⟨h', _⟩; exact absurd h' h
+example : checkSuperset [default] [default, default] = some 1 := by decide
+
 /-! ## T-lookup -/
 
 /-- "For every record of a collection, loading the record returns exactly one sketch, and it is the
